@@ -45,8 +45,23 @@ Theorem C01_changing_store_refines : forall bname async segs q,
   pubs (out (conns (runs bname async segs) q)) = sp_out (spec (alog (runs bname async segs))) q.
 Proof. exact runs_refines. Qed.
 
+(* ---- the same for the code as TRANSLATED from the Python source on every run (harness/pytrans3.py -> BrokerGen.v):
+   run_src is the event loop with the translated Server.subscribe/unsubscribe/publish and Connection.on_publish/
+   on_subscribe/on_unsubscribe/authenticate/connection_lost/message_received plugged in; BrokerGenRun.run_src_eq proves it
+   equal to the model.  These theorems rely on functional_extensionality_dep (Coq standard library) and nothing else. *)
+From HP Require Import PyBroker BrokerGen BrokerGenEq BrokerGenRun BrokerGenProps.
+Theorem C01_src_run_is_model : forall bname store async_store h, run_src bname store async_store h = run bname store async_store h.
+Proof. exact run_src_eq. Qed.
+Theorem C01_src_refines : forall bname store async_store h q, pubs (out (conns (run_src bname store async_store h) q)) = sp_out (spec (alog (run_src bname store async_store h))) q.
+Proof. exact src_refines. Qed.
+Theorem C01_src_publish_is_model : forall p c d s, Server_publish p c d s = match publish p c d s with Ok s' => BOk false s' | Raise s' => BRaise s' | Fuel s' => BFuel s' end.
+Proof. exact Server_publish_eq. Qed.
+
 Print Assumptions C01_refines.
 Print Assumptions C01_fanout_rule.
 Print Assumptions C01_publisher_ident.
 Print Assumptions C01_common_order.
 Print Assumptions C01_changing_store_refines.
+Print Assumptions C01_src_run_is_model.
+Print Assumptions C01_src_refines.
+Print Assumptions C01_src_publish_is_model.
